@@ -14,6 +14,17 @@ clearProcessLogs(name), clearAllProcessLogs, SIGUSR2 (through the real signal re
 Supervisor.handle_signal), ServerOptions.reopenlogs(), and files removed / replaced from outside.
 Observable: every log's directory (names and contents) after every step; what is handed to a logger is
 observed at the logger seam (Logger.log / Logger.info), the clock of LogRecord is frozen.
+
+Two more dimensions:
+  * where the bounds come from (`via`): 'attr' = attributes set on the options object, or 'conf' = a
+    configuration file (and command line) written by the harness and parsed by the real
+    ServerOptions.realize(): `[supervisord] logfile_maxbytes / logfile_backups`, `-y / -z`,
+    `[program:x] / [eventlistener:x] stdout_/stderr_logfile_maxbytes / _backups`, each possibly not written
+    at all; groups come from the real process_group_configs through Supervisor.add_process_group().
+    `expected_bounds()` states what the operator configured (from the documentation of the options, not from the
+    code); `handler_params()` reads the parameters of the handler that writes to each configured path.
+  * the mood of the daemon (RUNNING / RESTARTING / SHUTDOWN), reached through the real handle_signal
+    (SIGTERM, SIGINT, SIGQUIT, SIGHUP) or the shutdown / restart RPCs; every other operation can come in any mood.
 """
 import io, os, re, signal, sys, time
 
@@ -40,6 +51,32 @@ def listing(d):
         with open(os.path.join(d, fn), 'rb') as f:
             res[int(m.group(1) or 0)] = f.read()
     return res, other
+
+
+# documented defaults (docs/configuration.rst: logfile_maxbytes 50MB, logfile_backups 10; the same for
+# stdout_logfile_maxbytes / stdout_logfile_backups and stderr)
+DOC_DEFAULT_MAXBYTES = 50 * 1024 * 1024
+DOC_DEFAULT_BACKUPS = 10
+UNITS = {'KB': 1024, 'MB': 1024 * 1024, 'GB': 1024 * 1024 * 1024}          # docs: "KB", "MB", "GB" multipliers
+
+
+def bytes_text(n, unit=''):
+    """how the operator writes n bytes; with a unit when n is a multiple of it"""
+    if unit and n and n % UNITS[unit.upper()] == 0:
+        return '%d%s' % (n // UNITS[unit.upper()], unit)
+    return '%d' % n
+
+
+def expected_act(w):
+    """[maxbytes, backups] the operator configured for the activity log: command line over file over documented default"""
+    cli = w.get('cli') or {}
+    mb = cli['maxbytes'] if 'maxbytes' in cli else w['maxbytes'] if w['maxbytes'] is not None else DOC_DEFAULT_MAXBYTES
+    bk = cli['backups'] if 'backups' in cli else w['backups'] if w['backups'] is not None else DOC_DEFAULT_BACKUPS
+    return [mb, bk]
+
+
+def expected_chan(c):
+    return [c[0] if c[0] is not None else DOC_DEFAULT_MAXBYTES, c[1] if c[1] is not None else DOC_DEFAULT_BACKUPS]
 
 
 def chan_cfg(c):
@@ -78,82 +115,197 @@ class World:
         self.dirs[logid] = d
         return os.path.join(d, 'log')
 
-    def _build(self, ServerOptions, ProcessConfig, EventListenerConfig, ProcessGroupConfig, ProcessGroup, Supervisor, RPC):
+    def _options_class(self, ServerOptions):
+        """ServerOptions with the logger seam installed at the moment make_logger() has attached the handlers and is
+        about to replay the parsing messages into them (so that those messages are observed like any other)"""
+        world = self
+        class Opts(ServerOptions):
+            def _log_parsing_messages(self, logger):
+                world._install_seam(self, logger)
+                ServerOptions._log_parsing_messages(self, logger)
+        return Opts
+
+    def _install_seam(self, opts, logger):
         loggers, w = self.loggers, self.w
-        opts = self.opts = ServerOptions()
-        opts.logfile = self._logdir('act')
-        self.cfgs['act'] = chan_cfg([w['maxbytes'], w['backups']])
-        opts.loglevel = getattr(loggers.LevelsByName, w['level'])
-        opts.nodaemon, opts.silent = w['nodaemon'], w['silent']
-        opts.logfile_maxbytes, opts.logfile_backups = w['maxbytes'], w['backups']
-        opts.strip_ansi = False
-        self.stdout = io.StringIO()
-        saved = sys.stdout
-        sys.stdout = self.stdout
-        try:
-            opts.make_logger()                      # the real thing
-        finally:
-            sys.stdout = saved
         self.bare = None
         if w.get('extra', 'none') != 'none':
             # one more handler, of the base class: it can emit but has neither reopen() nor remove()
             self.bare = io.BytesIO()
             h = loggers.Handler(self.bare)
-            h.setFormat(FMT); h.setLevel(opts.logger.level)
-            if w['extra'] == 'front': opts.logger.handlers.insert(0, h)
-            else: opts.logger.handlers.append(h)
+            h.setFormat(FMT); h.setLevel(logger.level)
+            if w['extra'] == 'front': logger.handlers.insert(0, h)
+            else: logger.handlers.append(h)
         # the logger seam: everything handed to the activity logger, with the directories as they are right after
-        orig_log = opts.logger.log
+        orig_log = logger.log
         def log(level, msg, **kw):
             r = orig_log(level, msg, **kw)
             line = b''
-            if level >= opts.logger.level:
+            if level >= logger.level:
                 line = (FMT % loggers.LogRecord(level, msg, **kw).asdict()).encode('utf-8')
             self.events.append(('act', line, self.snapshot()))
             return r
-        opts.logger.log = log
+        logger.log = log
+
+    def conf_text(self):
+        """the configuration file an operator would write for this world (via = 'conf')"""
+        w = self.w
+        act = self._logdir('act')
+        L = ['[supervisord]', 'logfile=%s' % act, 'pidfile=%s' % os.path.join(self.root, 'pid'), 'childlogdir=%s' % self.root,
+             'nodaemon=%s' % ('true' if w['nodaemon'] else 'false'), 'silent=%s' % ('true' if w['silent'] else 'false'),
+             'loglevel=%s' % {'INFO': 'info', 'DEBG': 'debug'}[w['level']]]
+        if w['maxbytes'] is not None: L.append('logfile_maxbytes=%s' % bytes_text(w['maxbytes'], w.get('unit', '')))
+        if w['backups'] is not None: L.append('logfile_backups=%d' % w['backups'])
+        if w.get('user'): L.append('user=root')
+        L.append('')
+        self.names = {}
+        for gi, g in enumerate(w['groups']):
+            members = []
+            for pi, p in enumerate(g):
+                if p['kind'] == 'l':
+                    if len(g) != 1 or p['err'] == 'x':
+                        raise ValueError('a configured event listener is a group of its own and keeps its stderr')
+                    sec, gname = 'g%d' % gi, 'g%d' % gi
+                    L += ['[eventlistener:%s]' % sec, 'events=TICK_5', 'priority=%d' % (10 + gi)]
+                else:
+                    sec, gname = 'g%dp%d' % (gi, pi), 'g%d' % gi
+                    L += ['[program:%s]' % sec, 'priority=%d' % (10 + pi)]
+                    members.append(sec)
+                self.names[(gi, pi)] = (gname, sec)
+                L += ['command=/bin/true', 'autostart=false']
+                for ch, key in (('o', 'out'), ('e', 'err')):
+                    name = {'o': 'stdout', 'e': 'stderr'}[ch]
+                    c = p[key]
+                    if c == 'x':
+                        L.append('redirect_stderr=true')
+                        if p.get('xfile'):
+                            # a file name that the documentation says is ignored (and warned about at start-up)
+                            L.append('stderr_logfile=%s' % os.path.join(self.root, 'ignored_%d_%d' % (gi, pi)))
+                    elif c is None:
+                        L.append('%s_logfile=NONE' % name)
+                    else:
+                        logid = '%d.%d.%s' % (gi, pi, ch)
+                        L.append('%s_logfile=%s' % (name, self._logdir(logid)))
+                        if c[0] is not None: L.append('%s_logfile_maxbytes=%s' % (name, bytes_text(c[0], p.get('unit', ''))))
+                        if c[1] is not None: L.append('%s_logfile_backups=%d' % (name, c[1]))
+                        self.cfgs[logid] = chan_cfg(expected_chan(c))
+                L.append('')
+            if members:
+                L += ['[group:g%d]' % gi, 'programs=%s' % ','.join(members), 'priority=%d' % (10 + gi), '']
+        return '\n'.join(L)
+
+    def cli_args(self, conf):
+        w = self.w
+        cli = w.get('cli') or {}
+        args = ['-c', conf]
+        long = w.get('cliform', 'short') == 'long'
+        if 'maxbytes' in cli:
+            t = bytes_text(cli['maxbytes'], w.get('cliunit', ''))
+            args += ['--logfile_maxbytes=' + t] if long else ['-y', t]
+        if 'backups' in cli:
+            args += ['--logfile_backups=%d' % cli['backups']] if long else ['-z', '%d' % cli['backups']]
+        return args
+
+    def _build(self, ServerOptions, ProcessConfig, EventListenerConfig, ProcessGroupConfig, ProcessGroup, Supervisor, RPC):
+        loggers, w = self.loggers, self.w
+        self.boot_events = []
+        self.via = w.get('via', 'attr')
+        opts = self.opts = self._options_class(ServerOptions)()
+        self.cfgs['act'] = chan_cfg(expected_act(w) if self.via == 'conf' else [w['maxbytes'], w['backups']])
+        if self.via == 'conf':
+            text = self.conf_text()
+            conf = os.path.join(self.root, 'supervisord.conf')
+            with open(conf, 'w') as f:
+                f.write(text)
+            self.conf = text
+            saved_err = sys.stderr
+            sys.stderr = cap = io.StringIO()
+            try:
+                try:
+                    opts.realize(args=self.cli_args(conf), doc='', progname='supervisord')     # the real thing
+                except SystemExit:
+                    raise ValueError('the harness wrote a configuration that supervisord rejects: %s\n%s' % (cap.getvalue(), text))
+            finally:
+                sys.stderr = saved_err
+        else:
+            opts.logfile = self._logdir('act')
+            opts.loglevel = getattr(loggers.LevelsByName, w['level'])
+            opts.nodaemon, opts.silent = w['nodaemon'], w['silent']
+            opts.logfile_maxbytes, opts.logfile_backups = w['maxbytes'], w['backups']
+            opts.strip_ansi = False
+        self.stdout = io.StringIO()
+        self.bare = None
+        saved = sys.stdout
+        sys.stdout = self.stdout
+        try:
+            opts.make_logger()                      # the real thing; the seam goes in before the parsing messages are replayed
+        finally:
+            sys.stdout = saved
+        self.boot_events = list(self.events)
+        del self.events[:]
         self.fmtpre = (FMT % loggers.LogRecord(loggers.LevelsByName.INFO, '').asdict()).encode('utf-8')[:-1]
 
         self.sup = Supervisor(opts)
         self.procs = {}
-        groups = {}
-        for gi, g in enumerate(w['groups']):
-            pconfigs = []
-            for pi, p in enumerate(g):
-                params = dict(name='p%d' % pi, uid=None, command='/bin/true', directory=None, umask=None, priority=999 - pi,
-                              autostart=False, autorestart=False, startsecs=1, startretries=3,
-                              stdout_capture_maxbytes=0, stdout_events_enabled=False, stdout_syslog=False,
-                              stderr_capture_maxbytes=0, stderr_events_enabled=False, stderr_syslog=False,
-                              stopsignal=signal.SIGTERM, stopwaitsecs=1, stopasgroup=False, killasgroup=False,
-                              exitcodes=(0,), redirect_stderr=(p['err'] == 'x'))
-                for ch, key in (('o', 'out'), ('e', 'err')):
-                    name = {'o': 'stdout', 'e': 'stderr'}[ch]
-                    c = p[key]
-                    if c is None or c == 'x':
-                        params.update({name + '_logfile': None, name + '_logfile_maxbytes': 0, name + '_logfile_backups': 0})
-                    else:
-                        logid = '%d.%d.%s' % (gi, pi, ch)
-                        params.update({name + '_logfile': self._logdir(logid), name + '_logfile_maxbytes': c[0],
-                                       name + '_logfile_backups': c[1]})
-                        self.cfgs[logid] = chan_cfg(c)
-                pconfigs.append((EventListenerConfig if p['kind'] == 'l' else ProcessConfig)(opts, **params))
-            gconfig = ProcessGroupConfig(opts, 'g%d' % gi, 999 - gi, pconfigs)
-            group = ProcessGroup(gconfig)                               # makes the real Subprocess objects
-            groups['g%d' % gi] = group
-            for pi, pc in enumerate(pconfigs):
-                proc = group.processes[pc.name]
-                proc.dispatchers, proc.pipes = pc.make_dispatchers(proc)   # real dispatchers over real pipes
-                self.pipes.append(proc.pipes)
-                self.procs[(gi, pi)] = proc
-                for ch in ('o', 'e'):
-                    logid = '%d.%d.%s' % (gi, pi, ch)
-                    if logid in self.dirs:
-                        self._watch(logid, proc.dispatchers[proc.pipes['stdout' if ch == 'o' else 'stderr']])
-        self.sup.process_groups = groups
+        if self.via == 'conf':
+            for config in opts.process_group_configs:
+                self.sup.add_process_group(config)                          # after_setuid(), make_group(): the real thing
+            for (gi, pi), (gname, pname) in self.names.items():
+                proc = self.sup.process_groups[gname].processes[pname]
+                self._attach(gi, pi, proc)
+        else:
+            self.names = {}
+            groups = {}
+            for gi, g in enumerate(w['groups']):
+                pconfigs = []
+                for pi, p in enumerate(g):
+                    params = dict(name='p%d' % pi, uid=None, command='/bin/true', directory=None, umask=None, priority=999 - pi,
+                                  autostart=False, autorestart=False, startsecs=1, startretries=3,
+                                  stdout_capture_maxbytes=0, stdout_events_enabled=False, stdout_syslog=False,
+                                  stderr_capture_maxbytes=0, stderr_events_enabled=False, stderr_syslog=False,
+                                  stopsignal=signal.SIGTERM, stopwaitsecs=1, stopasgroup=False, killasgroup=False,
+                                  exitcodes=(0,), redirect_stderr=(p['err'] == 'x'))
+                    for ch, key in (('o', 'out'), ('e', 'err')):
+                        name = {'o': 'stdout', 'e': 'stderr'}[ch]
+                        c = p[key]
+                        if c is None or c == 'x':
+                            params.update({name + '_logfile': None, name + '_logfile_maxbytes': 0, name + '_logfile_backups': 0})
+                        else:
+                            logid = '%d.%d.%s' % (gi, pi, ch)
+                            params.update({name + '_logfile': self._logdir(logid), name + '_logfile_maxbytes': c[0],
+                                           name + '_logfile_backups': c[1]})
+                            self.cfgs[logid] = chan_cfg(c)
+                    pconfigs.append((EventListenerConfig if p['kind'] == 'l' else ProcessConfig)(opts, **params))
+                    self.names[(gi, pi)] = ('g%d' % gi, 'p%d' % pi)
+                gconfig = ProcessGroupConfig(opts, 'g%d' % gi, 999 - gi, pconfigs)
+                group = ProcessGroup(gconfig)                               # makes the real Subprocess objects
+                groups['g%d' % gi] = group
+                for pi, pc in enumerate(pconfigs):
+                    self._attach(gi, pi, group.processes[pc.name])
+            self.sup.process_groups = groups
         self.rpc = RPC(self.sup)
+        # make_logger() runs before the children's logs are opened; they are not touched by what it logs: the start-up
+        # messages are shown against the children's logs as they are once everything is set up
+        base = self.snapshot()
+        for _, _, snap in self.boot_events:
+            for lid in self.dirs:
+                if lid != 'act':
+                    snap[lid] = base[lid]
+        from supervisor import states
+        self._moodname = {v: k for k, v in vars(states.SupervisorStates).items() if isinstance(v, int)}
+
+    def _attach(self, gi, pi, proc):
+        proc.dispatchers, proc.pipes = proc.config.make_dispatchers(proc)   # real dispatchers over real pipes
+        self.pipes.append(proc.pipes)
+        self.procs[(gi, pi)] = proc
+        for ch in ('o', 'e'):
+            logid = '%d.%d.%s' % (gi, pi, ch)
+            if logid in self.dirs:
+                self._watch(logid, proc.dispatchers[proc.pipes['stdout' if ch == 'o' else 'stderr']])
 
     def _watch(self, logid, disp):
         lg = getattr(disp, 'normallog', None) or disp.childlog
+        self.chanlog = getattr(self, 'chanlog', {})
+        self.chanlog[logid] = lg
         orig = lg.info
         def info(data, **kw):
             r = orig(data, **kw)
@@ -168,6 +320,21 @@ class World:
         snap['#bare'] = len(self.bare.getvalue()) if self.bare is not None else 0
         return snap
 
+    def mood(self):
+        """the daemon's mood as Supervisor.get_state() reports it"""
+        return self._moodname.get(self.sup.get_state(), '?')
+
+    def handler_params(self):
+        """{logid: [(maxBytes or None when the handler has no size limit at all, backupCount or None)]} for the handlers that
+        write to the log's configured path"""
+        res = {}
+        for lid, d in self.dirs.items():
+            path = os.path.join(d, 'log')
+            lg = self.opts.logger if lid == 'act' else getattr(self, 'chanlog', {}).get(lid)
+            res[lid] = [(getattr(h, 'maxBytes', None), getattr(h, 'backupCount', None))
+                        for h in (lg.handlers if lg is not None else []) if getattr(h, 'baseFilename', None) == path]
+        return res
+
     def exists(self, logid):
         return os.path.exists(os.path.join(self.dirs[logid], 'log'))
 
@@ -179,6 +346,13 @@ class World:
         from supervisor.http import NOT_DONE_YET
         del self.events[:]
         err, refused = 'ok', False
+        mood0 = self.mood()
+        def fault(e):
+            # the documented refusals: NO_FILE for a log that is not there (handled at clearLog), SHUTDOWN_STATE while the
+            # daemon is restarting or shutting down
+            if e.code == Faults.SHUTDOWN_STATE and mood0 != 'RUNNING':
+                return None
+            return 'err fault %s' % e.code
         saved = sys.stderr
         sys.stderr = cap = io.StringIO()
         try:
@@ -199,20 +373,33 @@ class World:
                     except RPCError as e:
                         if e.code == Faults.NO_FILE and not present:
                             refused = True
+                        elif fault(e) is None:
+                            refused = True
                         else:
-                            err = 'err fault %s' % e.code
+                            err = fault(e)
                 elif k == 'optreopen':
                     self.opts.reopenlogs()
                 elif k == 'sigusr2':
                     self.opts.signal_receiver.receive(signal.SIGUSR2, None)     # what the real signal handler does
                     self.sup.handle_signal()
+                elif k == 'signal':
+                    self.opts.signal_receiver.receive(getattr(signal, 'SIG' + o[1]), None)
+                    self.sup.handle_signal()
+                elif k == 'rpc':
+                    try:
+                        if getattr(self.rpc, o[1])() is not True:
+                            err = 'err %s did not return True' % o[1]
+                    except RPCError as e:
+                        if fault(e) is None: refused = True
+                        else: err = fault(e)
                 elif k == 'clearproc':
-                    name = 'g%d:p%d' % (o[1], o[2])
+                    name = '%s:%s' % self.names[(o[1], o[2])]
                     try:
                         if self.rpc.clearProcessLogs(name) is not True:
                             err = 'err clearProcessLogs did not return True'
                     except RPCError as e:
-                        err = 'err fault %s' % e.code
+                        if fault(e) is None: refused = True
+                        else: err = fault(e)
                 elif k == 'clearall':
                     try:
                         cb = self.rpc.clearAllProcessLogs()
@@ -228,7 +415,8 @@ class World:
                             if bad or len(res) != len(self.procs):
                                 err = 'err clearAllProcessLogs answered %d results, %d not SUCCESS' % (len(res), len(bad))
                     except RPCError as e:
-                        err = 'err fault %s' % e.code
+                        if fault(e) is None: refused = True
+                        else: err = fault(e)
                 elif k == 'extremove':
                     try:
                         os.remove(self._name(o[1], o[2]))
@@ -279,6 +467,11 @@ class World:
                             pass
         finally:
             self.loggers.time = self._saved_time
+            try:
+                from supervisor import events
+                events.clear()                    # event listener pools made from a configuration subscribe globally
+            except Exception:
+                pass
 
 
 # ---- the property's view of an operation: which logs it clears / reopens ----------------------------
@@ -305,11 +498,21 @@ def op_unjson(l):
 
 def case_line(world, show):
     w = world.w
+    conf = world.via == 'conf'
+    def oi(v):
+        return 'd' if v is None else '%d' % v
     def ch(c):
-        return 'x' if c == 'x' else '-' if c is None else '%d.%d' % (c[0], c[1])
+        return 'x' if c == 'x' else '-' if c is None else '%s.%s' % (oi(c[0]), oi(c[1]))
     groups = '/'.join(','.join('%s:%s:%s' % (p['kind'], ch(p['out']), ch(p['err'])) for p in g) for g in w['groups']) or 'none'
-    return 'case logfan nodaemon=%d silent=%d maxbytes=%d backups=%d extra=%s fmtpre=%s show=%d groups=%s' % (
-        w['nodaemon'], w['silent'], w['maxbytes'], w['backups'], w.get('extra', 'none'), hexs(world.fmtpre), show, groups)
+    if conf:
+        cli = w.get('cli') or {}
+        bounds = 'via=conf maxbytes=%s backups=%s climb=%s clibk=%s' % (
+            '-' if w['maxbytes'] is None else w['maxbytes'], '-' if w['backups'] is None else w['backups'],
+            cli.get('maxbytes', '-'), cli.get('backups', '-'))
+    else:
+        bounds = 'via=attr maxbytes=%d backups=%d' % (w['maxbytes'], w['backups'])
+    return 'case logfan nodaemon=%d silent=%d %s extra=%s fmtpre=%s show=%d groups=%s' % (
+        w['nodaemon'], w['silent'], bounds, w.get('extra', 'none'), hexs(world.fmtpre), show, groups)
 
 
 def canon_log(ls, other, show):
